@@ -25,13 +25,6 @@ class RichUprpEditor:
         allocable_ids = self._generate_allocable_ids(lookup)
         new_cuwp_slots = [cuwp for cuwp in uprp.cuwp_slots]
         for i, cuwp_to_add in enumerate(unique_cuwps):
-            if not allocable_ids:
-                msg = (
-                    f"No more allocable IDs left.  Have we run out of CUWP slots?  "
-                    f"{i + 1} remaining CUWP slots that cannot be allocated."
-                )
-                self.log.error(msg)
-                raise ValueError(msg)
             if cuwp_to_add.index is not None:
                 if not lookup.get_cuwp_by_id(cuwp_to_add.index):
                     new_cuwp_slots.append(
@@ -50,6 +43,14 @@ class RichUprpEditor:
                         f"Attempted replacement: {cuwp_to_add}"
                     )
             else:
+                # only a CUWP that needs a new slot can run out of slots
+                if not allocable_ids:
+                    msg = (
+                        f"No more allocable IDs left.  Have we run out of CUWP slots?  "
+                        f"{i + 1} remaining CUWP slots that cannot be allocated."
+                    )
+                    self.log.error(msg)
+                    raise ValueError(msg)
                 new_cuwp_slots.append(
                     self._build_new_cuwp_slot_with_index(
                         cuwp_to_add, allocable_ids.pop()
